@@ -544,6 +544,12 @@ def classify_callee(F, e: Event) -> Tuple[str, str]:
             return ('pure', 'data method .%s' % m)
         if m in ('make_scope', 'push_scope', 'pop_scope'):
             return ('package', 'scope method .%s' % m)
+        if isinstance(recv, tuple) and recv[:1] == ('param',) and e.fn in F.functions and F.functions[e.fn].cls:
+            fcls = F.functions[e.fn].cls
+            fnode = F.functions[e.fn].node
+            if fnode.args.args and fnode.args.args[0].arg == recv[1] and F.find_method(fcls, m) is None:
+                # self.<attr>(...) where <attr> is not a method: a callable that was stored on the object
+                return ('dynamic', 'callable stored on the object (self.%s)' % m)
         owners = [cq for cq, ci in F.classes.items() if '.ply' not in ci.module.name and m in ci.methods]
         if owners and (m.startswith('_') or len(m) > 3):
             # receiver of unknown static type, but the name is a method of package classes only as far as this code base
